@@ -296,8 +296,8 @@ class World(object):
     vcount = [0]
 
     def do_store(m, t, via=None):
+      v = float(vcount[0])          # unique values 0.0, 1.0, 2.0, ... (zero is a value like any other)
       vcount[0] += 1
-      v = float(vcount[0])
       sent = m
       if via is not None or getattr(self, 'store_through_pipeline', False):
         from vlib.refs import tags as _reft
@@ -376,8 +376,8 @@ class World(object):
           if p.transport.producerState == 'producing':
             lines = []
             for (m, t) in op[2]:
-              vcount[0] += 1
               lines.append('%s %d %d\n' % (m, vcount[0], t))
+              vcount[0] += 1
             h.chunks_delivered = getattr(h, 'chunks_delivered', 0) + 1
             try:
               p.dataReceived(''.join(lines).encode())
@@ -409,8 +409,8 @@ class World(object):
         elif k == 'relaybuf':     # RELAY_CACHE_METRICS: a self-metric is handed to the relay manager (no destination is up)
           if state.client_manager is not None:
             h.self_prefix = self.settings.CARBON_METRIC_PREFIX + '.'
-            vcount[0] += 1
             state.client_manager.sendDatapoint('carbon.agents.self.m%d' % (vcount[0] % 3), (999900, float(vcount[0])))
+            vcount[0] += 1
         elif k == 'disconnect':   # a client goes away
           if len(protos) > 1:
             from twisted.internet.error import ConnectionDone
